@@ -19,7 +19,7 @@ namespace {
 int const k_max_nodes = 4, k_max_clients = 6, k_max_acc = 3, k_max_slots = 6, k_max_udp = 4;
 int64_t const k_delays[] = {0, 0, 1000, 1000000, 10000000, 100000000, 3000000, 700};
 int const k_ndelays = int(sizeof(k_delays) / sizeof(k_delays[0]));
-int const k_taglen = 48;
+int k_taglen_default = 48;
 
 struct NodeCfg
 {
@@ -113,6 +113,7 @@ struct Conn
 	struct UGot { int to; int64_t t; udp::endpoint from; std::vector<uint8_t> data; };
 	std::vector<UGot> ugot;
 	uint64_t steps = 0;
+	int k_taglen = 48; // bytes each side writes after establishment (bulk in some runs)
 
 	Conn(Plan const& p, Ctx& c, bool nat_on)
 		: plan(p), ctx(c), c07(p.prop == "C07"), c13(p.prop == "C13"), nat_enabled(nat_on)
@@ -175,7 +176,9 @@ struct Conn
 				else net.in_spec[a] = {};
 			}
 		}
-		if (!plan.c("nohops")) net.core_spec = {queue_hop(0, plan.c("corelat"), 0)};
+		// the core hop comes after every NAT: in some runs it is a slow finite queue that really drops bulk data
+		if (!plan.c("nohops")) net.core_spec = {queue_hop(plan.c("corebw"), plan.c("corelat"), plan.c("corecap"))};
+		k_taglen = int(std::max<int64_t>(1, std::min<int64_t>(60000, plan.c("taglen", 48))));
 	}
 
 	void go()
@@ -439,9 +442,22 @@ struct Conn
 	void write_tag(tcp::socket& s, int conn_id, int side)
 	{
 		bufs.emplace_back(new std::vector<uint8_t>(size_t(k_taglen)));
-		std::vector<uint8_t>& b = *bufs.back();
-		for (int i = 0; i < k_taglen; ++i) b[size_t(i)] = tag_byte(conn_id, side, i);
-		s.async_write_some(asio::buffer(b), [this](error_code const& ec, std::size_t n) { ev("tag_written", 0, ec.value(), int64_t(n)); });
+		std::vector<uint8_t>* b = bufs.back().get();
+		for (int i = 0; i < k_taglen; ++i) (*b)[size_t(i)] = tag_byte(conn_id, side, i);
+		write_rest(&s, b, 0);
+	}
+	// like a composed write: keep going until the whole tag is written (the socket object may be gone by then:
+	// the handler only touches it when the write succeeded, i.e. while it is still the same open connection)
+	void write_rest(tcp::socket* s, std::vector<uint8_t>* b, std::size_t off)
+	{
+		s->async_write_some(asio::buffer(b->data() + off, b->size() - off), [this, s, b, off](error_code const& ec, std::size_t n) {
+			ev("tag_written", 0, ec.value(), int64_t(n));
+			if (ec || n == 0 || off + n >= b->size()) return;
+			bool alive = false;
+			for (auto& c : client) if (c.get() == s) alive = true;
+			for (auto& x : slot) if (x.get() == s) alive = true;
+			if (alive && s->is_open()) write_rest(s, b, off + n);
+		});
 	}
 
 	void start_io_client(int id)
@@ -464,7 +480,7 @@ struct Conn
 	{
 		Attempt& A = attempts[size_t(id)];
 		int const c = A.client;
-		bufs.emplace_back(new std::vector<uint8_t>(64));
+		bufs.emplace_back(new std::vector<uint8_t>(k_taglen > 64 ? 4096 : 64));
 		std::vector<uint8_t>* b = bufs.back().get();
 		client[c]->async_read_some(asio::buffer(*b), [this, id, c, b](error_code const& ec, std::size_t n) {
 			ev("client_read", id, ec.value(), int64_t(n));
@@ -487,7 +503,7 @@ struct Conn
 	void read_accepted(int ri)
 	{
 		int const sl = accepts[size_t(ri)].slot;
-		bufs.emplace_back(new std::vector<uint8_t>(64));
+		bufs.emplace_back(new std::vector<uint8_t>(k_taglen > 64 ? 4096 : 64));
 		std::vector<uint8_t>* b = bufs.back().get();
 		slot[sl]->async_read_some(asio::buffer(*b), [this, ri, sl, b](error_code const& ec, std::size_t n) {
 			ev("accepted_read", ri, ec.value(), int64_t(n));
@@ -654,7 +670,7 @@ struct Conn
 				if (it != last_serial.end() && it->second > serial) fail("nat.udp.order", "datagrams between two endpoints delivered out of order");
 				last_serial[key] = serial;
 			}
-			if (ugot.size() != usent.size()) fail("nat.udp.lost", "a datagram sent over a loss-free route was not delivered");
+			if (ugot.size() != usent.size() && plan.c("corecap") == 0) fail("nat.udp.lost", "a datagram sent over a loss-free route was not delivered");
 			for (int u = 0; u < nudp; ++u)
 			{
 				error_code ec;
@@ -695,6 +711,11 @@ struct ConnEngine : Engine
 		}
 		p.cfg["corelat"] = rng.pick(std::vector<int64_t>{0, 1000000, 10000000, 50000000});
 		p.cfg["nohops"] = rng.chance(0.08) ? 1 : 0;
+		if (rng.chance(c13 ? 0.35 : 0.15))
+		{
+			p.cfg["taglen"] = rng.pick(std::vector<int64_t>{3000, 20000, 50000});
+			if (rng.chance(0.7)) { p.cfg["corebw"] = rng.pick(std::vector<int64_t>{100000, 400000, 2000000}); p.cfg["corecap"] = rng.pick(std::vector<int64_t>{3100, 4700, 9000}); }
+		}
 		int const nc = int(rng.range(1, k_max_clients));
 		int const na = int(rng.range(1, k_max_acc));
 		p.cfg["clients"] = nc;
@@ -775,7 +796,7 @@ struct ConnEngine : Engine
 			if (kv.second == 0) continue;
 			std::string const& k = kv.first;
 			auto ends = [&](char const* s) { size_t n = std::strlen(s); return k.size() >= n && k.compare(k.size() - n, n, s) == 0; };
-			if (ends("lat") || ends("dual") || ends("v6") || ends("v6only") || ends("nat") || ends("ip")) { Plan c = p; c.cfg[k] = 0; out.push_back(c); }
+			if (ends("lat") || ends("dual") || ends("v6") || ends("v6only") || ends("nat") || ends("ip") || ends("corebw") || ends("corecap") || ends("taglen")) { Plan c = p; c.cfg[k] = 0; out.push_back(c); }
 		}
 		for (char const* k : {"nodes", "clients", "acceptors", "udps"})
 			if (p.c(k) > (std::string(k) == "nodes" ? 2 : 1)) { Plan c = p; c.cfg[k] = p.c(k) - 1; out.push_back(c); }
